@@ -186,7 +186,7 @@ EXHAUSTIVE_TEMPLATES = [
 
 
 def run(ck):
-    n = 200 if ck.quick() else 1500
+    n = 200 if ck.quick() else 600
     if not S.lean_and_build(ck, "RlModel.Thm.C09", THEOREMS, "drv_c09", "c09"):
         return ck.finish(level="proof", trusted_base=S.TRUSTED)
     cases = S.corpus_cases("C09") + S.gen_cases(ck, "c09", n)
